@@ -18,6 +18,18 @@ def harness_spec():
     return ArchSpec(layout=lay, float_constants={"pitch": 2.5, "dup": 1.5, "origin": 0.0}, int_constants={"rows": 3, "dup": 2, "zero": 0})
 
 
+def harness_spec_inexact():
+    """the same zone names and shapes with coordinates that are not binary fractions (pitches 3.3 / 2.2 / 0.7, origin 1.1):
+    only for checks that compare grids with each other and never with the exact-rational model"""
+    from bloqade.geometry.dialects.grid import Grid
+    from bloqade.shuttle.arch import ArchSpec, Layout
+    traps = Grid((3.3, 3.3, 3.3), (2.2, 2.2), 1.1, 0.0)
+    aux = Grid((0.7, 0.7), (0.1, 0.1, 0.1), 20.3, 1.1)
+    park = Grid((2.2,), (1.1,), -4.4, 0.3)
+    lay = Layout(static_traps={"traps": traps, "aux": aux}, fillable={"traps"}, has_cz={"traps"}, has_local={"aux"}, special_grid={"park": park})
+    return ArchSpec(layout=lay, float_constants={"pitch": 2.5, "dup": 1.5, "origin": 0.0}, int_constants={"rows": 3, "dup": 2, "zero": 0})
+
+
 ZONES = {"traps": (4, 3), "aux": (3, 4)}
 SPECIALS = {"park": (2, 2)}
 
@@ -115,6 +127,10 @@ class G:
         if o == "var":
             return rng.choice(env["grids"][shape])
         if o == "shift":
+            if rng.random() < 0.3:
+                # displacement read from the spec at trace time (constants 0.0 / 1.5 / 2.5: a falsy one included)
+                cst = lambda: 'spec.get_float_constant(constant_id="' + rng.choice(["origin", "dup", "pitch"]) + '")'
+                return f"grid.shift({rng.choice(env['grids'][shape])}, {cst()}, {cst()})"
             return f"grid.shift({rng.choice(env['grids'][shape])}, {flt(rng)}, {flt(rng)})"
         if o == "scale":
             return f"grid.scale({rng.choice(env['grids'][shape])}, {rng.choice(['2.0', '0.5', '1.0'])}, {rng.choice(['2.0', '1.5'])})"
@@ -222,7 +238,8 @@ class G:
             r = rng.random()
             if depth < 2 and r < 0.14 and st is not None:
                 # for loop (body preserves the shape)
-                it = rng.choice([x for x in ("n", "m") if x in env["params"]] + [str(rng.randint(0, 3))])
+                it = rng.choice([x for x in ("n", "m") if x in env["params"]] + [str(rng.randint(0, 3))] +
+                                ['spec.get_int_constant(constant_id="zero")', 'spec.get_int_constant(constant_id="dup")'])   # trip counts 0 / 2 from the spec
                 i = self.fresh("i")
                 self.emit(ind, f"{i} = 0")   # kirin rejects an impure loop body that carries no variable
                 self.emit(ind, f"for {i} in range({it}):")
